@@ -32,6 +32,7 @@ import (
 	"fmt"
 	lru "github.com/hashicorp/golang-lru"
 	"sort"
+	"sync"
 )
 
 const (
@@ -109,6 +110,11 @@ type TxPool struct {
 
 	executed db.Database
 	batch    db.Batch
+
+	// lock serialises AddTransaction (network goroutines) with MarkExecuted and
+	// UnMarkExecuted (chain goroutine): they share batch, and the existence
+	// check in add must not interleave with a block being marked or removed.
+	lock sync.Mutex
 }
 
 var (
@@ -177,6 +183,9 @@ func (pool *TxPool) AddTransaction(tx *types.Transaction) (bool, error) {
 	//	return false, ErrEvicted
 	//}
 
+	pool.lock.Lock()
+	defer pool.lock.Unlock()
+
 	b, err := pool.add(tx)
 	if nil == err {
 		pool.refreshGateNonce(tx)
@@ -185,6 +194,9 @@ func (pool *TxPool) AddTransaction(tx *types.Transaction) (bool, error) {
 }
 
 func (pool *TxPool) MarkExecuted(header *types.BlockHeader, receipts types.Receipts, txs []*types.Transaction, evictedTxs []common.Hash) {
+	pool.lock.Lock()
+	defer pool.lock.Unlock()
+
 	txHashList := make([]interface{}, 0)
 
 	if receipts != nil && len(receipts) != 0 {
@@ -246,6 +258,9 @@ func (pool *TxPool) UnMarkExecuted(block *types.Block) {
 	if nil == txs || 0 == len(txs) {
 		return
 	}
+
+	pool.lock.Lock()
+	defer pool.lock.Unlock()
 
 	mysql.DeleteLogs(block.Header.Height, block.Header.Hash)
 
